@@ -1,0 +1,57 @@
+//! C26: records every error as it ARRIVES at one of the error-collection sites of the parallel
+//! phases, so that the check can compare the reported diagnostic with what the Lean model
+//! (`Model/ErrSelect.lean`) selects for exactly that arrival sequence. Compiled only with the `verif`
+//! feature; does nothing unless `WILD_VERIF_ERRLOG=<file>` is set. Observes only.
+//!
+//! Line format: `<site> <hex of the UTF-8 bytes of Error::to_string()>`; sites: `layout`
+//! (`GraphResources.errors`), `resolution` (`Outputs.errors`), `strmerge` (`SplitResources.errors`),
+//! `dup` (`resolve_alternative_symbol_definitions` error queue), `writer` (one line per failing group
+//! of `write_file_contents`, in group order; `writer-ok` for a group that succeeded).
+
+use std::io::Write as _;
+use std::sync::Mutex;
+use std::sync::OnceLock;
+
+pub const ENV: &str = "WILD_VERIF_ERRLOG";
+
+static LOG: OnceLock<Option<Mutex<std::fs::File>>> = OnceLock::new();
+
+fn log() -> Option<&'static Mutex<std::fs::File>> {
+    LOG.get_or_init(|| {
+        let path = std::env::var_os(ENV)?;
+        let file = std::fs::OpenOptions::new()
+            .create(true)
+            .append(true)
+            .open(path)
+            .ok()?;
+        Some(Mutex::new(file))
+    })
+    .as_ref()
+}
+
+pub fn arrive(site: &str, error: &crate::error::Error) {
+    let Some(log) = log() else {
+        return;
+    };
+    let msg = error.to_string();
+    let mut line = String::with_capacity(site.len() + 2 + 2 * msg.len());
+    line.push_str(site);
+    line.push(' ');
+    if msg.is_empty() {
+        line.push('-');
+    }
+    for b in msg.bytes() {
+        line.push_str(&format!("{b:02x}"));
+    }
+    line.push('\n');
+    let mut f = log.lock().unwrap();
+    let _ = f.write_all(line.as_bytes());
+}
+
+pub fn note(text: &str) {
+    let Some(log) = log() else {
+        return;
+    };
+    let mut f = log.lock().unwrap();
+    let _ = f.write_all(format!("{text}\n").as_bytes());
+}
